@@ -165,6 +165,7 @@ func main() {
 		"0-3 peers (some unknown/unset), 1-3 signers with validity windows [ts-a, now+b], b in {-100,5,100,337,338,1000,3600,6h,12h,24h,1e6}s " +
 		"and exact ts+ExpTimeToDuration boundaries, ingress/egress mostly consistent with the position, sometimes 0/unknown; " +
 		"xor-MAC chains are compared with the model line by line, AES-CMAC chains by predicate only; " +
+		"concurrent mode: 6 goroutines originate/propagate different beacons through ONE shared extender, meeting inside the MAC factory, each result judged like a sequential one; " +
 		"ExpTimeFromDuration on boundary and random durations; non-trivial = extension succeeded"
 	ctx := context.Background()
 	ncase := e.N(2500, 60000)
@@ -480,6 +481,8 @@ func main() {
 			}
 		}
 	}
+	// ---- concurrent use of one extender
+	runConcurrent(e, ctx)
 	// ---- ExpTimeFromDuration
 	r := vlib.NewRand(uint64(e.Seed) + 5)
 	unit := int64(path.MaxTTL / 256)
